@@ -824,10 +824,13 @@ func nestedAsyncCase(r *R, procs int) *Case {
 		}
 	case <-time.After(6 * time.Second):
 		f.fail("an async call made from inside an async callback did not return within 6 s (GOMAXPROCS=%d): the nested calls block each other", procs)
+		asyncStuck = true // the abandoned goroutines may hold whatever they block on: no further async call is made in this run
 	}
 	return &Case{Coq: "", Desc: map[string]any{"nested_async": rows, "GOMAXPROCS": procs}, Pred: f.pred, PredMsg: f.msg, Nontrivial: true,
 		Key: fmt.Sprintf("nested-async/%d/%d", rows, procs), Tags: []string{"nested-async"}}
 }
+
+var asyncStuck bool
 
 func genC15(r *R, n int, tier string, out *Out) {
 	sizes := []int{0, 1, 2, 3, 7, 8, 9, 10, 13, 15, 16, 17, 23, 33, 63, 64, 65, 100, 129}
@@ -835,7 +838,7 @@ func genC15(r *R, n int, tier string, out *Out) {
 		sizes = append(sizes, 257, 1000, 1025)
 	}
 	procs := []int{1, 2, 4, 16}
-	for i := 0; i < n; i++ {
+	for i := 0; i < n && !asyncStuck; i++ {
 		if i%5 == 4 {
 			out.emit(readersCase(r, 2+r.Intn(7)))
 			continue
